@@ -30,6 +30,13 @@ class SignBindingBase(Pipeline):
         v.monfail = [m for m in v.monfail if m[0].startswith(self.prefixes) or m[0].startswith("Setup.")]
         return v
 
+    def match_known(self, finding, failure):
+        """match = {...} as in Pipeline.match_known, or {"any_of": [match, match, ...]} (one finding that shows in several obligations)"""
+        m = finding.get("match", {})
+        if "any_of" in m:
+            return any(Pipeline.match_known(self, dict(finding, match=x), failure) for x in m["any_of"])
+        return Pipeline.match_known(self, finding, failure)
+
     def nontrivial(self, evs):
         return all(e.get("res") == "ok" for e in evs) and any(e["act"] == "Check" for e in evs)
 
